@@ -290,6 +290,46 @@ def shapes_worker(ctx, job):
                 check(srv.call({"op": "w_write", "h": h, "data": {"gen": [4, 1]}}), "write-after-close", "write after close")
                 check(srv.call({"op": "w_flush", "h": h}), "flush-after-close", "flush after close")
                 check(srv.call({"op": "w_commit", "h": h}), "commit-after-close", "commit after close")
+    # the cache is cleared / its temp area removed / the whole directory removed WHILE a write handle is open: every later
+    # call on the handle returns a value (an error is fine, spinning or panicking is not)
+    for keyed in (True, False):
+        for declared in (None, 7, ref.MIB + 3):
+            for wipe in ("clear", "clear-other-side", "rm-tmp", "rm-cache", "tmp-is-a-file"):
+                for when in ("before-write", "after-write"):
+                    c2 = ctx.fresh("c20w-")
+                    case = {"keyed": keyed, "declared": declared, "cache_disappears_by": wipe, "when": when}
+                    res["distinct"].add(V.h(flavour, side, "wiped", keyed, declared, wipe, when))
+                    req = {"op": pre + "open", "cache": c2, "opts": {} if declared is None else {"size": declared}}
+                    if keyed:
+                        req["key"] = "wiped"
+                    rep = srv.call(req)
+                    if not check(rep, "open", case) or "ok" not in rep:
+                        continue
+                    h = rep["ok"]["h"]
+
+                    def vanish():
+                        if wipe == "clear":
+                            check(srv.call({"op": "clear" + ("_sync" if s else ""), "cache": c2}), "clear-with-open-handle", case)
+                        elif wipe == "clear-other-side":
+                            check(srv.call({"op": "clear" + ("" if s and flavour != "sync" else "_sync"), "cache": c2}), "clear-with-open-handle", case)
+                        elif wipe == "rm-tmp":
+                            fsutil.wipe(os.path.join(c2, "tmp"))
+                        elif wipe == "rm-cache":
+                            fsutil.wipe(c2)
+                        else:
+                            fsutil.wipe(os.path.join(c2, "tmp"))
+                            with open(os.path.join(c2, "tmp"), "wb") as fh_:
+                                fh_.write(b"x")
+                    alive = True
+                    if when == "before-write":
+                        vanish()
+                    r = srv.call({"op": "w_write_all", "h": h, "data": {"gen": [7, 4]}})
+                    alive = check(r, "write-with-cache-gone", case) or ("hang" not in r and "died" not in r)
+                    if when == "after-write":
+                        vanish()
+                    if alive and "hang" not in r and "died" not in r:
+                        check(srv.call({"op": "w_commit", "h": h}), "commit-with-cache-gone", case)
+                    fsutil.wipe(c2)
     # readers: reads after EOF, zero-length buffers, zero-length entries
     for n in (0, 1, 5):
         wr.do_write(srv, cache, side=side, entry="oneshot", key="r%d" % n, n=n, tag=2)
